@@ -5,3 +5,4 @@ cd "$(dirname "$0")/harness"
 export CARGO_NET_OFFLINE=true
 cargo build --release --offline
 gcc -shared -fPIC -O2 -o /verif/.target/getrandom_shim.so /verif/harness/shim/getrandom_shim.c
+( cd /repo && CARGO_TARGET_DIR=/verif/.target/py cargo build -p pytrustfall --offline )
